@@ -206,6 +206,12 @@ def run(ck):
               "a write that hits would-block more than once continues where it stopped: the holder that detach(offset) re-queues records "
               "exactly the absolute offset it is given", min_instances=2)
 
+    ck.borrow("C06", ["C06-R3"], "C07-R12",
+              "the tail a would-block parked at the head of the FIFO is still there when the peer reads again: the drain routine removes an "
+              "entry only after it has taken its deferred out (to settle it or to move it into the re-queued entry), and the re-queued entry "
+              "carries the unsent tail -- a resumed drain that discards the parked entry never delivers what was pending",
+              key_pred=lambda k: k.endswith("no-entry-dropped-unsettled") or k.endswith("requeue-carries-tail"), min_instances=2)
+
     # ---------------- R9: an idle worker sleeps in epoll_wait ----------------
     ck.rule("C07-R9", "dataflow identity",
             "Epoll::poll hands its timeout parameter to epoll_wait unchanged (through casts only), and the reactor's loop calls it with "
